@@ -762,9 +762,10 @@ func OnceDo(o *sync.Once, f func()) {
 		o.Do(f)
 		return
 	}
-	if t := s.acquire(o, false); t != nil {
+	if t := s.acquire(o, false); t != nil || s.stopping.Load() {
+		// (during teardown acquire only counts the lock for a task caller: release takes the count back)
 		defer s.release(o, false)
-	} else if !s.stopping.Load() {
+	} else {
 		s.foreignLock(o, nil, func() {})
 	}
 	o.Do(f)
@@ -823,10 +824,25 @@ func NetDialTimeout(network, addr string, timeout time.Duration) (net.Conn, erro
 }
 
 func TLSDial(network, addr string, config *tls.Config) (*tls.Conn, error) {
+	return TLSDialWithDialer(nil, network, addr, config)
+}
+
+// TLSDialWithDialer stands for tls.DialWithDialer: the connection comes from the simulated network, with the
+// dialer's time limit and keep-alive reported to the dial seam; the limit also covers the handshake.
+func TLSDialWithDialer(d *net.Dialer, network, addr string, config *tls.Config) (*tls.Conn, error) {
 	if s := cur.Load(); s != nil && s.Dial != nil {
-		raw, err := s.Dial(context.Background(), network, addr, 0, -1)
+		timeout, keepAlive := time.Duration(0), time.Duration(-1)
+		if d != nil {
+			timeout, keepAlive = effectiveTimeout(context.Background(), d), d.KeepAlive
+		}
+		start := time.Now()
+		raw, err := s.Dial(context.Background(), network, addr, timeout, keepAlive)
 		if err != nil {
 			return nil, err
+		}
+		if timeout > 0 {
+			raw.SetDeadline(start.Add(timeout))
+			defer raw.SetDeadline(time.Time{})
 		}
 		if config == nil {
 			config = &tls.Config{}
@@ -844,7 +860,10 @@ func TLSDial(network, addr string, config *tls.Config) (*tls.Conn, error) {
 		}
 		return conn, nil
 	}
-	return tls.Dial(network, addr, config)
+	if d == nil {
+		return tls.Dial(network, addr, config)
+	}
+	return tls.DialWithDialer(d, network, addr, config)
 }
 
 // DialerDial replaces the method value (&net.Dialer{...}).Dial.
